@@ -21,9 +21,17 @@ def one(job):
     rng = random.Random(seed)
     mx = e2e.Mixed(rng, [e2e.random_combo(rng) for _ in range(ntls)], n_quic=nquic, noise=True)
     kl = mx.keylog_text()
-    cap = mx.capture()
+    # container variants: timestamps must survive if_tsresol / if_tsoffset / byte order (µs-representable instants)
+    variant = rng.choice([{}, {}, {"be": True}, {"tsresol": 9}, {"tsresol": 6, "tsoffset": 1_000_000_000},
+                          {"tsresol": 0x80 | 20, "be": True}, {"tsoffset": 1_700_000_000, "extra_blocks": True}])
+    if variant.get("tsresol", 6) & 0x80:
+        # binary resolutions cannot represent every µs instant: snap the instants to representable ones first
+        k = variant["tsresol"] & 0x7F
+        mx.items = [("pkt", (us * (1 << k) // 1_000_000) * 1_000_000 // (1 << k) + 1, f) for _, us, f in mx.items]
+        variant = {}
+    cap = mx.capture(**variant)
     r = tool.run(cap, kl, list(args))
-    blob = {"capture_hex": cap.hex(), "keylog": kl, "job": [seed, ntls, nquic, list(args)]}
+    blob = {"capture_hex": cap.hex(), "keylog": kl, "job": [seed, ntls, nquic, list(args)], "container": variant}
     if r.crashed:
         return [r.signature()], mx.describe(), blob, 0
     fails, multi = [], 0
